@@ -80,6 +80,10 @@ pub struct Cfg {
     pub forced: Option<Vec<u32>>,
     pub use_window: bool,
     pub max_steps: usize,
+    /// an execution that ends in a panic whose message contains this text is counted and the
+    /// exploration goes on with the next schedule (a panic that is part of the code's documented
+    /// behaviour under the scheduler, e.g. the cancellation handler of abandoned tasks)
+    pub tolerate: Option<&'static str>,
 }
 
 impl Cfg {
@@ -93,6 +97,7 @@ impl Cfg {
             forced: None,
             use_window: false,
             max_steps: 50_000,
+            tolerate: None,
         }
     }
 }
@@ -256,6 +261,8 @@ pub struct Outcome {
     pub cap_hit: bool,
     /// (choice list of the failing schedule, panic message)
     pub failure: Option<(Vec<u32>, String)>,
+    /// executions ended by a tolerated panic
+    pub tolerated: u64,
     pub machinery: Option<String>,
     pub wall: f64,
 }
@@ -279,16 +286,26 @@ where
         cfg.max_exec = 1;
     }
     let start = Instant::now();
-    let sched = BoundedDfs { cfg: cfg.clone(), sh: Arc::clone(&sh), start };
-    let mut config = shuttle::Config::new();
-    config.stack_size = 0x40_0000;
-    config.max_steps = shuttle::MaxSteps::FailAfter(cfg.max_steps * 4);
-    config.failure_persistence = shuttle::FailurePersistence::None;
-    config.silence_warnings = true;
-    let res = common::catch(move || {
-        let runner = shuttle::Runner::new(sched, config);
-        runner.run(body)
-    });
+    let body = Arc::new(body);
+    let mut tolerated = 0u64;
+    let res = loop {
+        let sched = BoundedDfs { cfg: cfg.clone(), sh: Arc::clone(&sh), start };
+        let mut config = shuttle::Config::new();
+        config.stack_size = 0x40_0000;
+        config.max_steps = shuttle::MaxSteps::FailAfter(cfg.max_steps * 4);
+        config.failure_persistence = shuttle::FailurePersistence::None;
+        config.silence_warnings = true;
+        let b2 = Arc::clone(&body);
+        let res = common::catch(move || {
+            let runner = shuttle::Runner::new(sched, config);
+            runner.run(move || b2())
+        });
+        match (&res, cfg.tolerate) {
+            // the failed execution stays on the DFS stack: the next runner continues behind it
+            (Err(msg), Some(t)) if !forced && msg.contains(t) && tolerated < 5_000_000 => tolerated += 1,
+            _ => break res,
+        }
+    };
     let s = sh.lock().unwrap_or_else(|e| e.into_inner());
     let failure = match res {
         Ok(_) => None,
@@ -308,5 +325,6 @@ where
         failure,
         machinery: s.nondeterminism.clone(),
         wall: start.elapsed().as_secs_f64(),
+        tolerated,
     }
 }
